@@ -374,6 +374,41 @@ func checkC09(c *Ctx) {
 		}
 		bws = append(bws, bw{"split_class", files, append([]proto.Step{openStep("use.lua", files["use.lua"])}, q...), len(q), ""})
 	}
+	// a watched-files batch in which one file really changed and another was only touched (same bytes as at its previous
+	// event): the two files are re-read by parallel workers; what the batch changes must not depend on which finishes last
+	{
+		var sa, sb strings.Builder
+		for i := 0; i < 1500; i++ {
+			fmt.Fprintf(&sa, "local fa%d = %d\n", i, i)
+			fmt.Fprintf(&sb, "local fb%d = %d\n", i, i)
+		}
+		files := map[string]string{"a.lua": sa.String() + "batch_old = 1\n", "b.lua": sb.String() + "batch_other = 2\n", "c.lua": "print(batch_new, batch_old, batch_other)\n"}
+		batch := func(names ...string) proto.Step {
+			var evs []string
+			for _, n := range names {
+				evs = append(evs, fmt.Sprintf(`{"uri":"file://$ROOT/%s","type":2}`, n))
+			}
+			return proto.Step{M: "workspace/didChangeWatchedFiles", N: true, P: json.RawMessage(`{"changes":[` + strings.Join(evs, ",") + `]}`)}
+		}
+		st := []proto.Step{openStep("c.lua", files["c.lua"]), batch("a.lua", "b.lua"),
+			{M: "fs.write", Path: "a.lua", Text: sa.String() + "batch_new = 1\n"}, batch("a.lua", "b.lua")}
+		q := []proto.Step{
+			{M: "textDocument/definition", P: posParams("c.lua", 0, 8)},
+			{M: "textDocument/definition", P: posParams("c.lua", 0, 19)},
+			{M: "textDocument/hover", P: posParams("c.lua", 0, 8)},
+			{M: "textDocument/references", P: refParams("c.lua", 0, 8)},
+		}
+		bws = append(bws, bw{"touch_batch", files, append(st, q...), len(q), ""})
+	}
+	// project mode, two files with the same text (and therefore textually identical warnings) reached from one entry file:
+	// each keeps its own diagnostics, whatever order the per-file results are collected in
+	{
+		twin := "local n = 1\nprint(undefined_twin, n)\n"
+		files := map[string]string{"luahelper.json": `{"ShowWarnFlag":1,"ProjectFiles":["main.lua"]}`,
+			"main.lua": "require(\"one.util\")\nrequire(\"two.util\")\nrequire(\"three.util\")\n", "one/util.lua": twin, "two/util.lua": twin, "three/util.lua": twin}
+		q := []proto.Step{{M: "textDocument/hover", P: posParams("main.lua", 0, 3)}}
+		bws = append(bws, bw{"twin_files_project", files, append([]proto.Step{openStep("main.lua", files["main.lua"])}, q...), len(q), ""})
+	}
 	// the same workspaces with an entry file configured: the project pass (its own goroutines and tables) runs too
 	for _, b := range append([]bw{}, bws...) {
 		entry := ""
